@@ -94,6 +94,10 @@ macro_rules! arith {
 
             (A::Date(a), A::Interval(b)) => A::new_date(binary_op(a.as_ref(), b.as_ref(), |a, b| *a $op *b)),
 
+            // an operand of type NULL (the untyped NULL constant): the result is NULL of type NULL
+            (A::Null(_), _) => self.clone(),
+            (_, A::Null(_)) => other.clone(),
+
             _ => return Err(ConvertError::NoBinaryOp(stringify!($name).into(), self.type_string(), other.type_string())),
         })
         }
@@ -144,6 +148,9 @@ macro_rules! cmp {
 
             (A::Date(a), A::Date(b)) => binary_op(a.as_ref(), b.as_ref(), |a, b| a $op b),
 
+            // comparing with the untyped NULL constant is NULL (of type BOOLEAN) for every row
+            (A::Null(_), _) | (_, A::Null(_)) => (0..self.len()).map(|_| None::<bool>).collect(),
+
             _ => return Err(ConvertError::NoBinaryOp(stringify!($name).into(), self.type_string(), other.type_string())),
         })))
         }
@@ -162,6 +169,14 @@ impl ArrayImpl {
     cmp!(lt,  <);
     cmp!(ge, >=);
     cmp!(le, <=);
+
+    /// The untyped NULL constant as an operand of AND / OR: a BOOLEAN array of NULLs.
+    fn null_as_bool(&self) -> Self {
+        match self {
+            A::Null(a) => A::new_bool((0..a.len()).map(|_| None::<bool>).collect()),
+            _ => self.clone(),
+        }
+    }
 
     pub fn div(&self, other: &Self) -> Result {
         let valid_rhs = other.get_valid_bitmap();
@@ -187,10 +202,11 @@ impl ArrayImpl {
     }
 
     pub fn and(&self, other: &Self) -> Result {
-        let (A::Bool(a), A::Bool(b)) = (self, other) else {
+        let (this, other) = (&self.null_as_bool(), &other.null_as_bool());
+        let (A::Bool(a), A::Bool(b)) = (this, other) else {
             return Err(ConvertError::NoBinaryOp(
                 "and".into(),
-                self.type_string(),
+                this.type_string(),
                 other.type_string(),
             ));
         };
@@ -203,10 +219,11 @@ impl ArrayImpl {
     }
 
     pub fn or(&self, other: &Self) -> Result {
-        let (A::Bool(a), A::Bool(b)) = (self, other) else {
+        let (this, other) = (&self.null_as_bool(), &other.null_as_bool());
+        let (A::Bool(a), A::Bool(b)) = (this, other) else {
             return Err(ConvertError::NoBinaryOp(
                 "or".into(),
-                self.type_string(),
+                this.type_string(),
                 other.type_string(),
             ));
         };
@@ -299,6 +316,7 @@ impl ArrayImpl {
             return Err(ConvertError::NoUnaryOp("case".into(), self.type_string()));
         };
         Ok(match (true_array, false_array) {
+            (A::Null(_), A::Null(_)) => true_array.clone(),
             (A::Bool(a), A::Bool(b)) => {
                 A::new_bool(clear_null(select_op(s.as_ref(), a.as_ref(), b.as_ref())))
             }
@@ -847,6 +865,8 @@ fn safen_dividend(array: &ArrayImpl, valid: &BitVec) -> Option<ArrayImpl> {
             let array = f(array, valid, Decimal::new(1, 0));
             ArrayImpl::Decimal(Arc::new(array))
         }
+        // the untyped NULL constant as divisor: the arithmetic arm yields NULL
+        ArrayImpl::Null(_) => array.clone(),
         _ => return None,
     })
 }
